@@ -54,7 +54,7 @@ func (p *simPanic) Error() string { return fmt.Sprintf("simpanic-%d", p.id) }
 type recEvent struct {
 	kind  string
 	fn    string
-	vals  []uint32
+	vals  []uint64
 	chain []string
 }
 
@@ -273,9 +273,9 @@ type lst struct{ r *runner }
 
 func (l *lst) Before(ctx context.Context, mod api.Module, def api.FunctionDefinition, params []uint64, si experimental.StackIterator) {
 	e := recEvent{kind: "before", fn: def.DebugName()}
-	for i := range def.ParamTypes() {
+	for i, pt := range def.ParamTypes() {
 		if i < len(params) {
-			e.vals = append(e.vals, uint32(params[i]))
+			e.vals = append(e.vals, decodeVal(pt, params[i]))
 		}
 	}
 	n := 0
@@ -290,15 +290,23 @@ func (l *lst) Before(ctx context.Context, mod api.Module, def api.FunctionDefini
 }
 func (l *lst) After(ctx context.Context, mod api.Module, def api.FunctionDefinition, results []uint64) {
 	e := recEvent{kind: "after", fn: def.DebugName()}
-	for i := range def.ResultTypes() {
+	for i, rt := range def.ResultTypes() {
 		if i < len(results) {
-			e.vals = append(e.vals, uint32(results[i]))
+			e.vals = append(e.vals, decodeVal(rt, results[i]))
 		}
 	}
 	l.r.events = append(l.r.events, e)
 }
 func (l *lst) Abort(ctx context.Context, mod api.Module, def api.FunctionDefinition, err error) {
 	l.r.events = append(l.r.events, recEvent{kind: "abort", fn: def.DebugName()})
+}
+
+// decodeVal: 32-bit types are carried in the low half of the uint64 slot.
+func decodeVal(t api.ValueType, v uint64) uint64 {
+	if t == api.ValueTypeI32 || t == api.ValueTypeF32 {
+		return v & 0xFFFFFFFF
+	}
+	return v
 }
 
 // classify maps an error returned by Call to (kind, first line).
@@ -416,7 +424,7 @@ func (r *runner) compareState(after string) bool {
 	return true
 }
 
-func eqU32(a, b []uint32) bool {
+func eqU32(a, b []uint64) bool {
 	if len(a) != len(b) {
 		return false
 	}
